@@ -51,7 +51,7 @@ def run(chk):
     pool = graphs.pool(chk, 250, 5000)
     nfam = 300 if chk.tier == "quick" else 6000
     for i in range(nfam):
-        doc = gen.clique_family(rng, keys=rng.choice([1, 1, 2]))
+        doc = gen.clique_family(rng, keys=rng.choice([1, 1, 2, 2, 3]))
         try:
             with warnings.catch_warnings():
                 warnings.simplefilter("ignore")
